@@ -80,6 +80,17 @@ where
         if E::BaseField::get_modulus_le_bytes() != context.field_modulus_bytes() {
             return Err(VerifierError::InconsistentBaseField);
         }
+
+        // make sure the number of constraints specified in the proof is consistent with the AIR
+        let num_constraints =
+            air.context().num_assertions() + air.context().num_transition_constraints();
+        if context.num_constraints() != num_constraints {
+            return Err(VerifierError::ProofDeserializationError(format!(
+                "expected {} constraints, but the proof context specifies {}",
+                num_constraints,
+                context.num_constraints()
+            )));
+        }
         let constraint_frame_width = air.context().num_constraint_composition_columns();
 
         let num_trace_segments = air.trace_info().num_segments();
